@@ -316,6 +316,19 @@ def deKind (k : Kind) (bs : List U8) : R :=
     | _, _, _, _, some g => deOut (.s8 g) (Serde.deS8 bs)
     | _, _, _, _, _ => ⟨"bad-kind", .empty⟩
 
+/-- serde round trip `deserialize(serialize(v))` -/
+def Val.rt : Val → Option Val
+  | .sm x => (Serde.deSplitMix (Serde.serSplitMix x)).map (fun p => .sm p.1)
+  | .s2_32 g s => (Serde.deS2_32 (Serde.serS2_32 s)).map (fun p => .s2_32 g p.1)
+  | .s2_64 g s => (Serde.deS2_64 (Serde.serS2_64 s)).map (fun p => .s2_64 g p.1)
+  | .s4_32 g s => (Serde.deS4_32 (Serde.serS4_32 s)).map (fun p => .s4_32 g p.1)
+  | .s4_64 g s => (Serde.deS4_64 (Serde.serS4_64 s)).map (fun p => .s4_64 g p.1)
+  | .s8 g s => (Serde.deS8 (Serde.serS8 s)).map (fun p => .s8 g p.1)
+  | .xs s => (Serde.deS4_32 (Serde.serS4_32 s)).map (fun p => .xs p.1)
+  | .isaac r => (Serde.deIsaac32 (Serde.serIsaac32 r)).map (fun p => .isaac p.1)
+  | .isaac64 r => (Serde.deIsaac64 (Serde.serIsaac64 r)).map (fun p => .isaac64 p.1)
+  | _ => none
+
 def escapeNl (s : String) : String := s.replace "\n" "\\n"
 
 def Val.dbg (pretty : Bool) : Val → String
@@ -365,6 +378,10 @@ def timerErrName : Jitter.TimerError → String
 
 def step (ss : Slots) (line : String) : String × Slots :=
   let toks := (line.trimAscii.toString.splitOn " ").filter (· ≠ "")
+  -- `@<t> cmd`: thread annotation of the harness; the model has no threads (C19: frame theorem)
+  let toks := match toks with
+    | t :: rest => if t.startsWith "@" then rest else toks
+    | [] => []
   match toks with
   | ["new", d, kind, how, arg] =>
     match d.toNat?, Kind.ofString kind with
@@ -456,6 +473,12 @@ def step (ss : Slots) (line : String) : String × Slots :=
       | .timer .. => ("unsupported", ss)
       | .empty => ("unsupported", ss)
       | v => ("ok", setSlot ss d v)
+    | _, _ => ("bad-op", ss)
+  | ["rt", d, s] =>
+    match d.toNat?, s.toNat? with
+    | some d, some s => match (getSlot ss s).rt with
+      | some v => ("ok", setSlot ss d v)
+      | none => ("unsupported", setSlot ss d .empty)
     | _, _ => ("bad-op", ss)
   | ["eq", a, b] =>
     match a.toNat?, b.toNat? with
